@@ -286,6 +286,14 @@ def crowded_dirs(root):
 
 def judge_round(ctx, root, case, rnd, opt, loader=None, keep=None):
     pre = pre_state(root)
+    # a Manifest that was listed twice in an EARLIER round of this history may have
+    # lost its MANIFEST entry to the deduplication without anything to show for it
+    # then (an empty directory): what a later round adds there is its consequence
+    seen = case.setdefault('_dup_manifests_seen', [])
+    for x in pre['dup_manifests']:
+        if x not in seen:
+            seen.append(x)
+    pre['dup_manifests'] = sorted(set(pre['dup_manifests']) | set(seen))
     crowded = crowded_dirs(root)
     kind, val = do_update(root, opt, loader=loader, keep=keep)
     if crowded:
